@@ -599,6 +599,8 @@ class Executor:
             return ("dict." + attr, v)
         if isinstance(v, list) and attr == "append":
             return ("list.append", v)
+        if isinstance(v, list) and attr == "union":
+            return ("set.union", v)
         if isinstance(v, Builtin) and v.name == "super":
             raise Unsupported("bare super")
         if isinstance(v, tuple) and len(v) == 2 and isinstance(v[0], Builtin) and v[0].name == "superobj":
@@ -865,6 +867,13 @@ class Executor:
                 return [(list(obj.items()), pc)]
             if tag == "dict.get":
                 return [(obj.get(*args), pc)]
+            if tag == "set.union":
+                out = list(obj)
+                for a in args:
+                    for k in (a.keys() if isinstance(a, dict) else a):
+                        if k not in out:
+                            out.append(k)
+                return [(sorted(out), pc)]
             if tag == "list.append":
                 obj.append(args[0])
                 return [(None, pc)]
@@ -882,12 +891,14 @@ class Executor:
 
     def construct(self, cls, args, kwargs, pc):
         """dataclass-style construction of an eqx.Module: fields from annotations, then __post_init__"""
-        fields, order = {}, []
+        fields, order, initvars = {}, [], []
         for c in reversed(self.mro(cls)):
             for n in self.classes[c].body:
                 if isinstance(n, ast.AnnAssign) and isinstance(n.target, ast.Name):
                     name = n.target.id
                     init, default = True, MISSING
+                    ann = n.annotation
+                    is_initvar = isinstance(ann, ast.Subscript) and isinstance(ann.value, ast.Name) and ann.value.id == "InitVar"
                     if n.value is not None:
                         if isinstance(n.value, ast.Call) and getattr(n.value.func, "attr", "") == "field":
                             for k in n.value.keywords:
@@ -903,6 +914,8 @@ class Executor:
                         order.remove(name)
                     order.append(name)
                     fields[name] = (init, default)
+                    if is_initvar:
+                        initvars.append(name)
         vals = {}
         pos = [n for n in order if fields[n][0]]
         for n, v in zip(pos, args):
@@ -915,10 +928,11 @@ class Executor:
                 if default is MISSING:
                     raise Unsupported(f"missing field {n} constructing {cls}")
                 vals[n] = default
+        iv = {k: vals.pop(k) for k in initvars if k in vals}          # InitVar pseudo-fields go to __post_init__
         rec = Rec(cls, vals)
         c, node = self.find_method(cls, "__post_init__")
         if node is not None:
-            outs = self.call_closure(Closure(node, {}, self, self_val=rec, cls=c), [], {}, pc)
+            outs = self.call_closure(Closure(node, {}, self, self_val=rec, cls=c), [], iv, pc)
             for o in outs:
                 if o.kind == "raise":
                     raise PyRaise(o.value)
@@ -1376,18 +1390,32 @@ def lib_take(ex, args, kwargs, pc):
 
 
 def lib_tree_map(ex, args, kwargs, pc):
+    """jax.tree_util.tree_map over (nested) dicts / lists / tuples; None is an empty node; `is_leaf` honoured"""
     f, *trees = args
-    t0 = trees[0]
-    if isinstance(t0, dict):
-        out = {}
-        for k in t0:
-            r = ex.apply(f, [t[k] for t in trees], {}, pc)
+    is_leaf = kwargs.get("is_leaf")
+
+    def leafp(x):
+        if is_leaf is not None:
+            r = ex.apply(is_leaf, [x], {}, pc)[0][0]
+            if ex.truth(r) is True:
+                return True
+        return not isinstance(x, (dict, list, tuple)) and x is not None
+
+    def rec(nodes):
+        t0 = nodes[0]
+        if leafp(t0):
+            r = ex.apply(f, list(nodes), {}, pc)
             if len(r) != 1:
                 raise Unsupported("fork inside tree_map")
-            out[k] = r[0][0]
-        return out
-    r = ex.apply(f, list(trees), {}, pc)
-    return r[0][0]
+            return r[0][0]
+        if t0 is None:
+            return None
+        if isinstance(t0, dict):
+            return {k: rec([t[k] for t in nodes]) for k in t0}
+        if isinstance(t0, (list, tuple)):
+            return type(t0)(rec([t[i] for t in nodes]) for i in range(len(t0)))
+        raise Unsupported("tree_map node")
+    return rec(trees)
 
 
 def lib_tree_structure(ex, args, kwargs, pc):
